@@ -864,6 +864,8 @@ def symmap_value(ip, m, kt):
 
 def setitem(ip, v, k, val):
     ctx = ip.ctx
+    if hasattr(v, 'pv_setitem'):
+        return v.pv_setitem(ip, k, val)
     if isinstance(v, PyList):
         c = ops.const_int(k)
         if c is None:
@@ -1676,6 +1678,8 @@ def builtin_super_attr(ip, sp, name, bases):
     recv = sp.recv
     if name == '__init__':
         return Builtin('object.__init__', lambda ip, *a, **k: None)
+    if name == '__setattr__' and isinstance(recv, Obj):
+        return Builtin('object.__setattr__', lambda ip, n, val: ip.raw_setattr(recv, n, val))
     if name == '__new__':
         def new(ip, cls, *a, **k):
             info = cls.info
